@@ -57,9 +57,10 @@ type c15World struct {
 	sys         map[string]time.Time   // system holds: snap -> until (zero = none); forever = far future
 	sysForever  map[string]bool
 	problems    []string
+	quiet       bool
 }
 
-var c15Snaps = []string{"snap-a", "snap-b"}
+var c15Snaps = []string{"snap-a", "snap-b", "snap-c"}
 
 func c15New() *c15World {
 	w := &c15World{now: time.Date(2030, 1, 1, 0, 0, 0, 0, time.UTC), lastRefresh: map[string]time.Time{}, episodes: map[string]*c15Episode{},
@@ -163,7 +164,9 @@ func (w *c15World) apply(ev c15Event) {
 			}
 		}
 	}
-	w.check()
+	if !w.quiet {
+		w.check()
+	}
 }
 
 func (w *c15World) rel(t time.Time) string { return t.Sub(time.Date(2030, 1, 1, 0, 0, 0, 0, time.UTC)).String() }
@@ -280,12 +283,17 @@ func c15Alphabet(thorough bool) []c15Event {
 	// episode, so hold(b->a), +47h, hold(b->a, 24h) holds until +71h — unreachable through the hook/snapctl paths).
 	evs = append(evs, c15Event{Kind: "hold", By: "snap-b", On: "snap-a", Dur: 0})
 	evs = append(evs, c15Event{Kind: "hold", By: "snap-a", On: "snap-a", Dur: 0})
-	evs = append(evs, c15Event{Kind: "hold", By: "snap-a", On: "snap-b", Dur: 0})
-	_ = thorough
+	// a second gating snap on the same held snap (their episodes are independent and must not disturb each other)
+	evs = append(evs, c15Event{Kind: "hold", By: "snap-c", On: "snap-a", Dur: 0})
 	evs = append(evs, c15Event{Kind: "syshold", On: "snap-a", Dur: -1}, c15Event{Kind: "syshold", On: "snap-a", Dur: 100 * c15Day})
-	evs = append(evs, c15Event{Kind: "proceed", By: "snap-b"}, c15Event{Kind: "proceed", By: "snap-a"})
-	evs = append(evs, c15Event{Kind: "refresh", On: "snap-a"}, c15Event{Kind: "refresh", On: "snap-b"})
-	for _, d := range []time.Duration{time.Hour, 23 * time.Hour, 47 * time.Hour, 30 * c15Day, 79 * c15Day} {
+	evs = append(evs, c15Event{Kind: "proceed", By: "snap-b"}, c15Event{Kind: "proceed", By: "snap-c"})
+	evs = append(evs, c15Event{Kind: "refresh", On: "snap-a"})
+	advances := []time.Duration{time.Hour, 23 * time.Hour, 47 * time.Hour, 79 * c15Day}
+	if thorough {
+		evs = append(evs, c15Event{Kind: "hold", By: "snap-a", On: "snap-b", Dur: 0}, c15Event{Kind: "proceed", By: "snap-a"}, c15Event{Kind: "refresh", On: "snap-b"})
+		advances = append(advances, 30*c15Day)
+	}
+	for _, d := range advances {
 		evs = append(evs, c15Event{Kind: "advance", Dur: d})
 	}
 	return evs
@@ -297,10 +305,13 @@ type c15Case struct {
 }
 
 func c15Run(path []c15Event) *c15World {
+	// the reporting oracle was evaluated on every prefix when that prefix was explored: replay quietly
 	w := c15New()
+	w.quiet = true
 	for _, ev := range path {
 		w.apply(ev)
 	}
+	w.quiet = false
 	return w
 }
 
